@@ -1,19 +1,25 @@
 (* C07 — Results never depend on basis-cache history (memory or disk).
-   Only statements; proofs in proofs/Cache*Proofs.v, proofs/BasisDirProofs.v,
-   proofs/TriangularCrop.v.  Models: model/Cache{Basex,Daun,Dasch,Linbasex,
-   Rbasex}.v (one state machine per caching module: module globals + basis
-   directories; symbolic contents whose semantic reading `den_*` is given in
-   the proofs files), model/BasisDir.v, model/CacheCommon.v.
+   Only statements; proofs in proofs/Cache*Proofs.v, proofs/CacheRbasexInv.v,
+   proofs/BasisDirProofs.v, proofs/TriangularCrop.v.  Models: model/Cache{Basex,
+   Daun,Dasch,Linbasex,Rbasex}.v (one state machine per caching module: module
+   globals + basis directories; symbolic contents whose semantic reading
+   `den_*` is given in the proofs files), model/BasisDir.v, model/CacheCommon.v
+   — all describing the code AFTER the fixes cbc57b0 .. 2e99c37.
 
-   `no_hazard init ops` says that the history never takes one of the
-   enumerated defective program paths (each of them is a recorded finding with
-   its own refutation theorem below) and that pre-seeded files are what a
-   correct save of their name would have written; `no_damage ops` that no
-   damaged file is seeded (that case is C08).  `all_agree init ops` says that
-   EVERY call of the history returns the same ideal numbers as the same call
-   in a fresh process with empty basis directories.  Histories are arbitrary
-   finite lists of calls (all parameters), cache_cleanup(select),
-   basis_dir_cleanup, set_basis_dir, appearing and disappearing files. *)
+   `no_hazard init ops` now only states assumptions about the environment:
+   basis directories are writable, good files found on disk are what a save of
+   their name writes (damaged and wrong-shape files may be there), parameters
+   are in the modelled domain (daun degree 0..3), and — rbasex — the
+   quantities computed by abel.tools.vmi.Distributions are functions of
+   (parameters, weights content).  The single remaining exclusion that is a
+   defect is in linbasex (see C07_linbasex_size_test_refuted).
+   `no_damage ops`: no damaged file is seeded (that case is C08).
+   `all_agree init ops`: EVERY call of the history returns the same ideal
+   numbers (or raises the same exception class) as the same call in a fresh
+   process with empty basis directories.  Histories are arbitrary finite lists
+   of calls (all parameters, valid or not), cache_cleanup(select),
+   basis_dir_cleanup, set_basis_dir, appearing and disappearing files, and for
+   rbasex direct calls of the public accessor get_bs_cached. *)
 From Coq Require Import List Arith Bool.
 From PA Require Import base.Npy model.CacheCommon model.BasisDir proofs.BasisDirProofs.
 From PA Require model.CacheBasex model.CacheDaun model.CacheDasch model.CacheLinbasex model.CacheRbasex
@@ -21,7 +27,7 @@ From PA Require model.CacheBasex model.CacheDaun model.CacheDasch model.CacheLin
   proofs.CacheRbasexProofs proofs.CacheRbasexInv proofs.TriangularCrop.
 Import ListNotations.
 
-(* ---- basex: holds for every history --------------------------------------------- *)
+(* ---- basex ------------------------------------------------------------------------ *)
 Theorem C07_basex_history_independent : forall ops,
   CacheBasex.no_hazard CacheBasex.init ops = true -> CacheBasex.no_damage ops = true ->
   CacheBasex.all_agree CacheBasex.init ops = true.
@@ -55,7 +61,7 @@ Proof. exact TriangularCrop.leading_block_inverse_all. Qed.
 Print TriangularCrop.leading_block_inverse_statement.
 Print Assumptions C07_leading_block_inverse.
 
-(* ---- daun ------------------------------------------------------------------------------------ *)
+(* ---- daun: all degrees 0..3 ------------------------------------------------------------------ *)
 Theorem C07_daun_history_independent : forall ops,
   CacheDaun.no_hazard CacheDaun.init ops = true -> CacheDaun.no_damage ops = true ->
   CacheDaun.all_agree CacheDaun.init ops = true.
@@ -77,7 +83,8 @@ Theorem C07_daun_cleanup_only_speed : forall ops1 ops2 c all,
 Proof. exact CacheDaunProofs.cleanup_only_speed. Qed.
 Print Assumptions C07_daun_cleanup_only_speed.
 
-(* degree 0..2: a cropped larger basis is the smaller basis; degree 3: it is not *)
+(* degree 0..2: a cropped larger basis is the smaller basis; degree 3: it is
+   not — which is why the code must not (and, since cbc57b0, does not) crop it *)
 Theorem C07_daun_crop_law : forall n N deg, deg < 3 -> n <= N ->
   CacheDaunProofs.den_b (CacheDaun.crop n (CacheDaun.ideal N deg)) = CacheDaunProofs.den_b (CacheDaun.ideal n deg).
 Proof. exact CacheDaunProofs.crop_law. Qed.
@@ -86,104 +93,62 @@ Theorem C07_daun_crop_law3_fails : forall n N, n < N ->
   CacheDaunProofs.den_b (CacheDaun.crop n (CacheDaun.ideal N 3)) <> CacheDaunProofs.den_b (CacheDaun.ideal n 3).
 Proof. exact CacheDaunProofs.crop_law3_fails. Qed.
 
-(* finding F3: [Call(n=20, degree 3, dir); cache_cleanup; Call(n=12, degree 3, dir)] *)
-Theorem C07_daun3_disk_crop_refuted :
-  res_code (CacheDaun.last_result CacheDaunProofs.d3_hist CacheDaunProofs.d3_call) = 0 /\
-  CacheDaunProofs.den_out (CacheDaun.last_result CacheDaunProofs.d3_hist CacheDaunProofs.d3_call)
-    <> CacheDaunProofs.den_out (CacheDaun.fresh CacheDaunProofs.d3_call).
-Proof. exact CacheDaunProofs.daun3_disk_crop_refuted. Qed.
-Print Assumptions C07_daun3_disk_crop_refuted.
+(* the histories of the former findings F3 / failed save now agree *)
+Example C07_daun_former_findings :
+  CacheDaun.out_eqv (CacheDaun.last_result CacheDaunProofs.d3_hist CacheDaunProofs.d3_call)
+                    (CacheDaun.fresh CacheDaunProofs.d3_call) = true /\
+  CacheDaun.out_eqv (CacheDaun.last_result CacheDaunProofs.fs_hist CacheDaunProofs.fs_call)
+                    (CacheDaun.fresh CacheDaunProofs.fs_call) = true.
+Proof. split; [exact (proj2 CacheDaunProofs.daun3_no_disk_crop)|exact (proj2 CacheDaunProofs.failed_save_harmless)]. Qed.
 
-(* finding: a failing save (unwritable basis_dir) leaves _bs without _bs_prm *)
-Theorem C07_daun_failed_save_poisons_refuted :
-  res_code (CacheDaun.last_result CacheDaunProofs.fs_hist CacheDaunProofs.fs_call) = 0 /\
-  CacheDaunProofs.den_out (CacheDaun.last_result CacheDaunProofs.fs_hist CacheDaunProofs.fs_call)
-    <> CacheDaunProofs.den_out (CacheDaun.fresh CacheDaunProofs.fs_call).
-Proof. exact CacheDaunProofs.failed_save_poisons_refuted. Qed.
-Print Assumptions C07_daun_failed_save_poisons_refuted.
-
-(* ---- linbasex: holds when no two parameter sets share a key ---------------------------------------- *)
+(* ---- linbasex ------------------------------------------------------------------------------------ *)
+(* _partial for ONE reason: `hazard` still excludes a memory hit on a basis made
+   for another image size (the memory test compares _basis.shape with
+   (2*cols, cols+1) only) — a remaining finding, refuted below *)
 Theorem C07_linbasex_history_independent_partial : forall ops,
   CacheLinbasex.no_hazard CacheLinbasex.init ops = true -> CacheLinbasex.no_damage ops = true ->
   CacheLinbasex.all_agree CacheLinbasex.init ops = true.
 Proof. exact CacheLinbasexProofs.history_independent_partial. Qed.
 Print Assumptions C07_linbasex_history_independent_partial.
 
-(* finding F4 *)
-Theorem C07_linbasex_angle_key_collision_refuted :
-  CacheLinbasex.key_of [0; 2] [0; 201] 1 0 = CacheLinbasex.key_of [0; 2] [0; 202] 1 0 /\
-  res_code (CacheLinbasex.last_result CacheLinbasexProofs.ang_hist CacheLinbasexProofs.ang_call) = 0 /\
-  CacheLinbasexProofs.den_out (CacheLinbasex.last_result CacheLinbasexProofs.ang_hist CacheLinbasexProofs.ang_call)
-    <> CacheLinbasexProofs.den_out (CacheLinbasex.fresh CacheLinbasexProofs.ang_call).
-Proof. exact CacheLinbasexProofs.angle_key_collision_refuted. Qed.
-Print Assumptions C07_linbasex_angle_key_collision_refuted.
+Theorem C07_linbasex_size_test_refuted :
+  res_code (CacheLinbasex.last_result [CacheLinbasex.Call 3 CacheLinbasexProofs.five CacheLinbasexProofs.six 1 0 BNone]
+                                      (CacheLinbasex.Call 9 CacheLinbasexProofs.five CacheLinbasexProofs.six 1 0 BNone))
+    = exc_code EOther /\
+  res_code (CacheLinbasex.fresh (CacheLinbasex.Call 9 CacheLinbasexProofs.five CacheLinbasexProofs.six 1 0 BNone)) = 0.
+Proof. exact CacheLinbasexProofs.size_test_refuted. Qed.
+Print Assumptions C07_linbasex_size_test_refuted.
 
-Theorem C07_linbasex_order_key_collision_refuted :
-  CacheLinbasex.key_of [1; 2] [0; 202] 1 0 = CacheLinbasex.key_of [12] [0; 202] 1 0 /\
-  CacheLinbasex.out_eqv (CacheLinbasex.last_result CacheLinbasexProofs.ord_hist CacheLinbasexProofs.ord_call)
-                        (CacheLinbasex.fresh CacheLinbasexProofs.ord_call) = false.
-Proof. exact CacheLinbasexProofs.order_key_collision_refuted. Qed.
-Print Assumptions C07_linbasex_order_key_collision_refuted.
+(* the former key collisions (F4) are gone *)
+Example C07_linbasex_former_findings :
+  CacheLinbasex.out_eqv (CacheLinbasex.last_result [CacheLinbasex.Call 11 [0; 2] [0; 201] 1 0 BNone]
+                                                   (CacheLinbasex.Call 11 [0; 2] [0; 202] 1 0 BNone))
+                        (CacheLinbasex.fresh (CacheLinbasex.Call 11 [0; 2] [0; 202] 1 0 BNone)) = true /\
+  CacheLinbasex.out_eqv (CacheLinbasex.last_result [CacheLinbasex.Call 11 [1; 2] [0; 202] 1 0 (BPath 1); CacheLinbasex.Cleanup]
+                                                   (CacheLinbasex.Call 11 [12] [0; 202] 1 0 (BPath 1)))
+                        (CacheLinbasex.fresh (CacheLinbasex.Call 11 [12] [0; 202] 1 0 (BPath 1))) = true.
+Proof. split; [exact CacheLinbasexProofs.angle_keys_distinct|exact CacheLinbasexProofs.order_keys_distinct]. Qed.
 
-(* ---- rbasex: holds with the recorded defective paths excluded ------------------------------------------ *)
-(* hazards (model/CacheRbasex.v `hazard`): a call whose Distributions raises,
-   an invalid reg, an unwritable basis_dir, reuse of the cached Distributions
-   object after the weights changed in place, direct calls of the accessor
-   get_bs_cached;
-   each has its refutation theorem below.  The quantities computed by
-   abel.tools.vmi.Distributions (rmax, valid mask, output geometry) are inputs
-   of the model, assumed to be functions of (parameters, weights content). *)
-Theorem C07_rbasex_history_independent_partial : forall ops,
+(* ---- rbasex: transforms with any parameters and the accessor get_bs_cached -------------------------- *)
+Theorem C07_rbasex_history_independent : forall ops,
   CacheRbasex.no_hazard CacheRbasex.init ops = true -> CacheRbasex.no_damage ops = true ->
   CacheRbasex.all_agree CacheRbasex.init ops = true.
-Proof. exact CacheRbasexInv.history_independent_partial. Qed.
-Print Assumptions C07_rbasex_history_independent_partial.
+Proof. exact CacheRbasexInv.history_independent. Qed.
+Print Assumptions C07_rbasex_history_independent.
 
-(* ---- rbasex: the findings --------------------------------------------------------------------------------- *)
-(* F5 is fixed in /repo (image basis keyed by its geometry): the former
-   refutation is now an instance of the positive theorem *)
-Example C07_rbasex_ibs_keyed :
-  CacheRbasex.out_eqv (CacheRbasex.last_result CacheRbasexProofs.ibs_hist CacheRbasexProofs.ibs_call)
-                      (CacheRbasex.fresh CacheRbasexProofs.ibs_call) = true.
-Proof. exact CacheRbasexProofs.ibs_keyed. Qed.
-
-(* F6 *)
-Theorem C07_rbasex_weights_identity_refuted :
-  res_code (CacheRbasex.last_result CacheRbasexProofs.w_hist CacheRbasexProofs.w_call) = 0 /\
-  res_code (CacheRbasex.fresh CacheRbasexProofs.w_call) = 0 /\
-  CacheRbasex.out_eqv (CacheRbasex.last_result CacheRbasexProofs.w_hist CacheRbasexProofs.w_call)
-                      (CacheRbasex.fresh CacheRbasexProofs.w_call) = false.
-Proof. exact CacheRbasexProofs.weights_identity_refuted. Qed.
-Print Assumptions C07_rbasex_weights_identity_refuted.
-
-(* F17 *)
-Theorem C07_rbasex_failed_call_poisons_refuted :
-  res_code (CacheRbasex.last_result CacheRbasexProofs.fc_hist CacheRbasexProofs.fc_call) = exc_code EAttr /\
-  res_code (CacheRbasex.fresh CacheRbasexProofs.fc_call) = 0.
-Proof. exact CacheRbasexProofs.failed_call_poisons_refuted. Qed.
-Print Assumptions C07_rbasex_failed_call_poisons_refuted.
-
-Theorem C07_rbasex_invalid_reg_twice_refuted :
-  res_code (CacheRbasex.last_result CacheRbasexProofs.rg_hist CacheRbasexProofs.rg_call) = 0 /\
-  res_code (CacheRbasex.fresh CacheRbasexProofs.rg_call) = exc_code EValue.
-Proof. exact CacheRbasexProofs.invalid_reg_twice_refuted. Qed.
-Print Assumptions C07_rbasex_invalid_reg_twice_refuted.
-
-(* _trf / _tri not keyed by the valid mask (public accessor get_bs_cached) *)
-Theorem C07_rbasex_accessor_mask_refuted :
-  res_code (CacheRbasex.last_result [CacheRbasex.Call CacheRbasexProofs.acc_call7] CacheRbasexProofs.acc_get) = 0 /\
-  res_code (CacheRbasex.fresh CacheRbasexProofs.acc_get) = 0 /\
-  CacheRbasex.out_eqv (CacheRbasex.last_result [CacheRbasex.Call CacheRbasexProofs.acc_call7] CacheRbasexProofs.acc_get)
-                      (CacheRbasex.fresh CacheRbasexProofs.acc_get) = false.
-Proof. exact CacheRbasexProofs.accessor_mask_refuted. Qed.
-Print Assumptions C07_rbasex_accessor_mask_refuted.
-
-Theorem C07_rbasex_accessor_poisons_transform_refuted :
-  res_code (CacheRbasex.last_result CacheRbasexProofs.acc_hist (CacheRbasex.Call CacheRbasexProofs.acc_callok)) = 0 /\
-  CacheRbasex.out_eqv (CacheRbasex.last_result CacheRbasexProofs.acc_hist (CacheRbasex.Call CacheRbasexProofs.acc_callok))
-                      (CacheRbasex.fresh (CacheRbasex.Call CacheRbasexProofs.acc_callok)) = false.
-Proof. exact CacheRbasexProofs.accessor_poisons_transform_refuted. Qed.
-Print Assumptions C07_rbasex_accessor_poisons_transform_refuted.
+(* the histories of the former findings F5, F6, F17, invalid reg, valid key *)
+Example C07_rbasex_former_findings :
+  CacheRbasexProofs.agrees [CacheRbasex.Call (CacheRbasexProofs.mkcall 1 0 0 0 0 false (Some (5, 5, 0)) BNone)]
+                           (CacheRbasex.Call (CacheRbasexProofs.mkcall 1 0 0 0 0 false (Some (6, 6, 0)) BNone)) = true /\
+  CacheRbasexProofs.agrees [CacheRbasex.Call (CacheRbasexProofs.mkcall 2 1 100 0 0 false None BNone)]
+                           (CacheRbasex.Call (CacheRbasexProofs.mkcall 2 1 101 0 0 false None BNone)) = true /\
+  CacheRbasexProofs.agrees [CacheRbasex.Call (CacheRbasexProofs.mkcall 3 0 0 2 0 false None BNone)]
+                           (CacheRbasex.Call (CacheRbasexProofs.mkcall 1 0 0 0 0 false None BNone)) = true /\
+  CacheRbasexProofs.agrees [CacheRbasex.Call CacheRbasexProofs.call7] (CacheRbasex.GetBs 4 2 false false 0 1000 BNone []) = true.
+Proof.
+  split; [exact CacheRbasexProofs.ibs_keyed|]. split; [exact CacheRbasexProofs.weights_by_content|].
+  split; [exact (proj1 (proj2 CacheRbasexProofs.failed_call_harmless))|exact (proj1 CacheRbasexProofs.accessor_keyed_by_mask)].
+Qed.
 
 (* ---- basis-directory helpers ------------------------------------------------------------------------------------ *)
 Theorem C07_basis_dir_resolution : forall a,
@@ -211,10 +176,14 @@ Print Assumptions C07_basis_dir_cleanup_exact.
 (* the hypotheses are satisfiable by non-trivial histories *)
 Example C07_hypotheses_satisfiable :
   CacheDaun.no_hazard CacheDaun.init
-    [CacheDaun.Call 12 2 CacheDaun.RDiff 1 false (BPath 1) 0; CacheDaun.Cleanup true;
+    [CacheDaun.Call 12 3 CacheDaun.RDiff 1 false (BPath 1); CacheDaun.Cleanup true;
      CacheDaun.Seed 2 (14, 1) (FGood (CacheDaun.ideal 14 1));
-     CacheDaun.Call 9 2 CacheDaun.RNone 0 true (BPath 1) 12; CacheDaun.Call 8 1 CacheDaun.RL2 2 false (BPath 2) 14] = true /\
+     CacheDaun.Call 9 3 CacheDaun.RNone 0 true (BPath 1); CacheDaun.Call 8 1 CacheDaun.RL2 2 false (BPath 2)] = true /\
   CacheBasex.no_hazard CacheBasex.init
     [CacheBasex.Call 12 0 0 true 0 false (BPath 1); CacheBasex.Cleanup CacheBasex.CAll;
-     CacheBasex.Call 8 0 1 false 1 true (BPath 1); CacheBasex.Call 14 0 0 true 0 false BDefault] = true.
-Proof. split; vm_compute; reflexivity. Qed.
+     CacheBasex.Call 8 0 1 false 1 true (BPath 1); CacheBasex.Call 14 0 0 true 0 false BDefault] = true /\
+  CacheRbasex.no_hazard CacheRbasex.init
+    [CacheRbasex.Call (CacheRbasexProofs.mkcall 3 0 0 2 9 false None BNone);
+     CacheRbasex.Call CacheRbasexProofs.call7; CacheRbasex.GetBs 4 2 false false 0 1000 (BPath 1) [];
+     CacheRbasex.Cleanup CacheRbasex.CInv; CacheRbasex.Call (CacheRbasexProofs.mkcall 1 0 0 0 2 false (Some (5, 5, 0)) (BPath 1))] = true.
+Proof. repeat split; vm_compute; reflexivity. Qed.
